@@ -172,6 +172,29 @@ extern "C" void harness_exact_solution()
     vt_cover("exact end");
 }
 
+// Impl::eval() from an arbitrary implementation state, including the periodically evaluated form (period_ > 0): the
+// evaluation thread itself is not modelled, its cached verdict evalValue_ is a symbolic bit.
+extern "C" void harness_impl_eval()
+{
+    typedef ob::PlannerTerminationCondition::PlannerTerminationConditionImpl Impl;
+    alignas(16) static char impl_buf[sizeof(Impl)];
+    auto *impl = reinterpret_cast<Impl *>(impl_buf);
+    new (&impl->fn_) ob::PlannerTerminationConditionFn([] { return g_p1 != 0; });
+    bool periodic = vt_nondet_bool();
+    impl->period_ = periodic ? vt_double_in(1e-9, 1e6) : (vt_nondet_bool() ? -1.0 : 0.0);
+    impl->terminate_ = false;
+    bool cached = vt_nondet_bool();
+    new (&impl->evalValue_) std::atomic<bool>(cached);
+    g_p1 = nondet_uchar() & 1;
+    VT_CHECK(impl->eval() == (periodic ? cached : (g_p1 != 0)), "eval is the predicate, or its cached verdict in the periodic form");
+    impl->terminate();
+    g_p1 = nondet_uchar() & 1;
+    VT_CHECK(impl->eval(), "after terminate() eval is true in the direct and in the periodic form");
+    VT_CHECK(impl->eval(), "and stays true");
+    if (periodic) vt_cover("periodic form");
+    vt_cover("impl eval end");
+}
+
 // cost convergence: one step of processNewSolution from an arbitrary (average, count) state
 #ifndef WINDOW
 #define WINDOW 3
